@@ -97,7 +97,7 @@ def _set_collision(matches, value):
 
 
 def check_set(text, segs, value, res, doc_a=None, expect_targets=None,
-              ptext_override=None):
+              ptext_override=None, value_format=None):
     """One set on a fresh copy.  doc_a: untouched loaded copy.
     ptext_override: another spelling of the same selection (e.g. through a
     Collector); the model still evaluates segs."""
@@ -121,6 +121,8 @@ def check_set(text, segs, value, res, doc_a=None, expect_targets=None,
     replace = {medit.poskey(m.p, m.r) for m in matches}
     alias_ids = {id(m.v) for m in matches if anchor_of(m.v) is not None}
     newc = cscalar(value)
+    if value_format == "dquote":
+        newc = cscalar(str(value))      # written demarcated: it is text
     expected = medit.sorted_set_canon(
         medit.canon_replace(doc_a, replace, alias_ids, newc))
     shape = doc_shape(doc_a, matches, [m.v for m in matches])
@@ -129,11 +131,19 @@ def check_set(text, segs, value, res, doc_a=None, expect_targets=None,
     case = {"doc": text, "path": gpaths.to_json(segs), "value": value}
     if ptext_override:
         case["text"] = ptext_override
+    if value_format:
+        case["value_format"] = value_format
     res.evaluations += 1
     doc_b, _ = gdocs.load(text)
     proc = real.processor(doc_b)
     try:
-        proc.set_value(real.ypath(ptext), value, mustexist=True)
+        if value_format:
+            from yamlpath.enums import YAMLValueFormats
+            proc.set_value(real.ypath(ptext), value, mustexist=True,
+                           value_format=YAMLValueFormats.from_str(
+                               value_format))
+        else:
+            proc.set_value(real.ypath(ptext), value, mustexist=True)
     except YAMLPathException as exc:
         res.fail({"clause": "unexpected-yamlpath-error", "shape": shape},
                  case, "%s" % exc)
@@ -557,6 +567,12 @@ def run_shard(shard):
                         for value in NEW_VALUES[2:4]:
                             check_set(text, segs, value, res, doc_a,
                                       ptext_override=coll)
+                        # a requested format must reach Collector results
+                        # (and plain paths) alike: "7" demarcated is text
+                        check_set(text, segs, "7", res, doc_a,
+                                  ptext_override=coll, value_format="dquote")
+                        check_set(text, segs, "7", res, doc_a,
+                                  value_format="dquote")
                         res.label("collector-spelling")
             else:
                 for pi, segs in enumerate(vocab_paths()):
@@ -584,5 +600,6 @@ def replay(case):
         replay_history(case, res)
     else:
         check_set(case["doc"], gpaths.from_json(case["path"]), case["value"],
-                  res, ptext_override=case.get("text"))
+                  res, ptext_override=case.get("text"),
+                  value_format=case.get("value_format"))
     return [r for _, recs in res.failures.values() for r in recs]
